@@ -97,6 +97,25 @@ theorem simulator_direct_eq_fresh (ops : List SiOp) (sts : List Nat) :
       freshSi true (exec (stepSi true) initSi ops).config (.direct sts) :=
   simulator_query_eq_fresh ops _ rfl
 
+/-- `probability(StateVector, BasicState)` is `evolve(StateVector)` followed by a sum over the evolved vector: the
+model step is `.evolve` — after any history = fresh simulator -/
+theorem simulator_probability_sv_eq_fresh (ops : List SiOp) (keys : List SiKey) :
+    (stepSi true (exec (stepSi true) initSi ops) (.evolve keys)).2 =
+      freshSi true (exec (stepSi true) initSi ops).config (.evolve keys) :=
+  simulator_query_eq_fresh ops _ rfl
+
+/-- `prob_amplitude(StateVector, BasicState)`: one `prob_amplitude(BasicState, ·)` per term of the vector, asked
+one after the other on the same object — after any history EVERY one of them is what a fresh simulator given the
+final configuration answers (the earlier terms of the same call leave nothing behind) -/
+theorem simulator_prob_amplitude_sv_eq_fresh (ops : List SiOp) (terms : List (List Nat)) :
+    (run (stepSi true) (exec (stepSi true) initSi ops) (terms.map SiOp.direct)).2 =
+      terms.map (fun sts => freshSi true (exec (stepSi true) initSi ops).config (.direct sts)) := by
+  rw [directs_run _ (simulator_inv_all_histories ops)]
+  apply List.map_congr_left
+  intro sts _
+  unfold freshSi
+  rw [querySi_spec _ (.direct sts) rfl (simulator_inv_all_histories _), configSi_canon]
+
 /-- closed form: the answer of every query is a function of the configuration (`specSiQ`), never `stale` -/
 theorem simulator_query_closed_form (ops : List SiOp) (q : SiOp) (hq : q.isQuery = true) :
     (stepSi true (exec (stepSi true) initSi ops) q).2 = specSiQ (exec (stepSi true) initSi ops).config q :=
@@ -543,7 +562,7 @@ theorem mps_cutoff_fails_on_current_code :
   * the numbers (answers are provenance); that masked and unmasked evaluation agree after herald post-selection
     (C04); which vectors of an `evolve_svd` input pass the photon filter and what `_preprocess_svd` trims (the
     driver is given the flags / inputs are generated so that nothing is trimmed);
-  * `Simulator.probs_density_matrix` / `evolve_density_matrix`, `probability(StateVector, ·)`, the early returns of
+  * `Simulator.probs_density_matrix` / `evolve_density_matrix`, the early returns of
     `probability` / `prob_amplitude` for a vacuum input (no model step); the caller's heralds dict kept by
     reference;
   * `Processor.with_input(LogicalState)` (stores `input.n` as the filter when none is set — the mechanism of the
